@@ -25,7 +25,7 @@ from harness.common import enc, kids, tag, is_err, to_zs, VERIF
 from harness import c01 as C1
 
 PROP = 'C05'
-GENERATORS = ['gen_memo']
+GENERATORS = ['gen_memo', 'gen_combine']   # gen_combine: C01.Model (imported by the C05 model) uses Gen_combine
 TRUSTED = [
     'tools/gen/gen_memo.py: which to_mask definitions are memoised and which function caches each mutation path clears '
     '(update_components, update_values_from_data, move_to, link changes, attribute assignment), regenerated from the source by ast scan',
